@@ -663,11 +663,38 @@ func (f *Frame) applyContract(con *Contract, key string, sig *types.Signature, a
 		o.Callee = key
 		vc.assume(implies(f.curReach, t))
 	}
+	// a callee that reorders / overwrites the elements of a slice parameter in place (`modifies backing:<param>`): the slice
+	// handed over must not be one the caller's own caller still sees
+	for _, m := range con.Modifies {
+		if !strings.HasPrefix(m, "backing:") || c == nil {
+			continue
+		}
+		names := paramNames(sig, con)
+		for i, n := range names {
+			ai := i
+			if sig.Recv() != nil && !c.IsInvoke() {
+				ai = i // receiver is Args[0] for static calls
+			}
+			if n != strings.TrimPrefix(m, "backing:") || ai >= len(c.Args) {
+				continue
+			}
+			if si := vc.P.shortInfoOf(f.fn); f.depth == 0 && si.entry[c.Args[ai]] {
+				k := vc.callOrd["frame:backing-array-call"]
+				vc.callOrd["frame:backing-array-call"] = k + 1
+				fo := vc.addObl(f, "frame", fmt.Sprintf("frame[backing-array].a-slice-the-caller-still-sees-is-not-handed-to-%s#%d", shortKey(key), k), "false",
+					"a slice that existed at entry is handed to "+key+", which rewrites its elements in place", pos)
+				fo.NotExcluded = true
+			}
+		}
+	}
 	// havoc frame
 	if con.ModAll {
 		f.havocHeap()
 	} else {
 		for _, m := range vc.P.effMods(con) {
+			if strings.HasPrefix(m, "backing:") {
+				continue
+			}
 			k := vc.P.modKey(m)
 			if _, ok := vc.cellSort[k]; !ok {
 				// materialise the cell (sort derived from the declaration) so that the unchanged value on other
